@@ -24,6 +24,7 @@ func main() {
 	cfgFlag := flag.String("config", "", "internal: goos/goarch/tags of a child run")
 	emitJSON := flag.Bool("emit-json", false, "internal: print obligations as JSON (child of a thorough run)")
 	list := flag.Bool("list", false, "list claimed properties")
+	genFuncs := flag.Bool("gen-functions", false, "tooling: write spec/functions.json (names, receivers, signatures and callees of the module's functions) from the current tree")
 	all := flag.Bool("all", false, "tooling: run every claimed property (quick tier) in one process on one load of the tree; prints 'RESULT <id> rc=<n>' per property")
 	flag.Parse()
 
@@ -45,6 +46,20 @@ func main() {
 	}
 	if *replay != "" {
 		os.Exit(doReplay(*replay))
+	}
+	if *genFuncs {
+		p, err := core.Load(core.DefaultConfig)
+		if err != nil {
+			fmt.Println(err)
+			os.Exit(2)
+		}
+		b, _ := json.MarshalIndent(p.FunctionRecords(), "", " ")
+		if err := os.WriteFile(core.VerifDirStatic()+"/spec/functions.json", append(b, '\n'), 0o644); err != nil {
+			fmt.Println(err)
+			os.Exit(2)
+		}
+		fmt.Printf("%d functions recorded\n", len(p.FunctionRecords()))
+		return
 	}
 	if *all {
 		os.Exit(runAll(seed))
